@@ -73,6 +73,16 @@ Theorem C15_terminal_dead : forall (e : regex) (fuel cf : nat) (d : dfa),
       end.
 Proof. exact main_terminal_dead. Qed.
 
+(* When alternatives of a choice carry tags (tagwf: a tag on an untagged
+   expression, choices of such, untagged expressions; nesting of choices allowed),
+   the tags reported after consuming a string are exactly the tags of the
+   alternatives that match the string. *)
+Theorem C15_tags : forall (e : regex) (fuel cf : nat) (d : dfa),
+  tagwf e = true -> compile fuel cf (build e) = Ok d ->
+  forall s k, bytes s -> transition_many d (dstart d) s = Ok (Some k) ->
+    exists i, info d k = Ok i /\ forall t, In t (dtags i) <-> tag_spec e s t.
+Proof. exact main_tags. Qed.
+
 (* the reference matcher used as property predicate by the correspondence check
    decides the denotation *)
 Theorem C15_matcher : forall (s : list N) (e : regex), matcher e s = true <-> matches e s.
@@ -90,6 +100,14 @@ Check C15_main : forall (e : regex) (fuel cf : nat) (d : dfa),
 Theorem C15_optional_inplace_refuted :
   exists e s, (let* d := compile_default (build_v0 e) in dfa_matches d s) = Ok true /\ matcher e s = false.
 Proof. exists (Opt (Seq [Plus (Lit [97]); Lit [98]])), [97]. vm_compute. split; reflexivity. Qed.
+
+Example C15_tags_nonvacuous :
+  let e := Choice [Tag 1 (Lit [97; 98; 99]); Tag 2 (Lit [97; 98; 100]); Tag 3 (Seq [Lit [97]; Many (Pred [98; 99])])] in
+  tagwf e = true /\
+  (let* d := compile_default (build e) in
+   let* r := transition_many d (dstart d) [97; 98; 99] in
+   match r with Some k => let* i := info d k in Ok (dtags i) | None => Ok [] end) = Ok [1; 3].
+Proof. vm_compute. split; reflexivity. Qed.
 
 Example C15_nonvacuous :
   (let* d := compile_default (build (Opt (Seq [Plus (Lit [97]); Lit [98]]))) in dfa_matches d [97]) = Ok false /\
